@@ -27,7 +27,7 @@ func init() {
 		QuickTimeoutS: 500, ThoroughTimeoutS: 3000, GoMaxProcs: []int{4, 2, 16}, Parallel: 8,
 		Level: "exploration", DesignRef: "DESIGN.md section 4, C16",
 		Technique: "runtime monitoring with an independent cryptographic verifier (stdlib AES-256-GCM, HKDF-SHA256, HMAC-SHA256, Ed25519 key derivation) over rotation histories replayed on a reference configuration; concurrent processors and rotators under the race detector with a per-value 'which configuration explains it' search and a real-time window check",
-		LevelText: "Exploration by execution: sequential histories of events (with and without per-event wrapper info; byte strings incl. empty and non-UTF-8; event salt/info nil/empty/set; empty event id) interleaved with Rotate(WithWrapper/WithSalt/WithInfo subsets) and in-band rotation payloads; a reference history tracks the (wrapper key, salt, info) in force and every encrypted value must open to the original under exactly the key in force (filter key, or the per-event key re-derived from the documented recipe) and under no other key (previous keys, base key, another event id), every HMAC must equal the recomputed digest with the documented precedence of event over filter salt/info, equal inputs give equal digests, an empty event id is rejected. Concurrent part: 2..6 processors and 1..2 rotators (Rotate calls and rotation payloads, totally ordered, each installing a unique full triple): every value must verify under exactly one configuration taken as an atomic (wrapper, salt, info) triple - a mixture is a violation - and that configuration must lie in the window allowed by real time (not older than the last rotation that returned before the event started, not newer than the last one requested before it ended).",
+		LevelText: "Exploration by execution: sequential histories of events (with and without per-event wrapper info; byte strings incl. empty and non-UTF-8; event salt/info nil/empty/set; empty event id) interleaved with Rotate(WithWrapper/WithSalt/WithInfo subsets) and in-band rotation payloads; a reference history tracks the (wrapper key, salt, info) in force and every encrypted value must open to the original under exactly the key in force (filter key, or the per-event key re-derived from the documented recipe) and under no other key (previous keys, base key, another event id), every HMAC must equal the recomputed digest with the documented precedence of event over filter salt/info, equal inputs give equal digests, an empty event id is rejected. Concurrent part: 2..6 processors and 1..2 rotators (Rotate calls and rotation payloads, totally ordered, each installing a unique full triple): every value must verify under exactly one configuration taken as an atomic (wrapper, salt, info) triple - a mixture is a violation - and that configuration must lie in the window allowed by real time (not older than the last rotation that returned before the event started, not newer than the last one requested before it ended). Taggable maps inside the payloads carry, besides string values, []byte values selected by pointer tags (same bytes as a string twin: the digests must be equal and the ciphertext must open to the original bytes, incl. empty and non-UTF-8); and the sender of an in-band rotation payload overwrites its own salt/info buffers in half of the cases once the payload was consumed - later events must use the values the payload reported while it was processed.",
 		LevelNote: "Trusted: the independent verifier, the logical clock. The per-event AES key is the Ed25519 PUBLIC key of the HKDF seed (that is what NewEventWrapper really uses).",
 		Rule:      "seeded histories; every history is non-trivial; distinct = distinct history / concurrent configuration.",
 	})
